@@ -234,16 +234,16 @@ ADDED = {
     "C05": " Added: the producer side updates the back-pressure flag.",
     "C06": " Added: linger deadline not re-armed; draining still decodes the in-flight body; FINISHED (or a close) is marked at the end of every response body, so the keep-alive timer can be armed; timer polls are examined (shared with C04).",
     "C08": " Added: END_STREAM accounting of a computed flag; eof decided after the status adjustment; the reservation for the rest of a chunk is recomputed each round.",
-    "C09": " Added: configure() keeps a builder's default service unless the configuration supplies one.",
+    "C09": " Added: configure() keeps a builder's default service unless the configuration supplies one; Route builder steps hand back the receiver with its guards.",
     "C10": " Added: captured segments are looked up by name; build_resource_path appends static text and values verbatim.",
     "C11": " Added: head fields not reset by clear() are overwritten on every path to the hand-off (must-pass, both protocols).",
-    "C12": " Added: the bound compared is the configured limit itself (no path replaces it by a constant).",
+    "C12": " Added: the bound compared is the configured limit itself (no path replaces it by a constant); the Readlines bound covers the line being assembled; an ignored multipart part is drained before the next one.",
     "C13": " Added: a handler-set Content-Length is removed when an encoder is installed (h2 copied it: found and fixed); the request decoder is put back after every data chunk; negotiate() answers only with a coding taken from an accepted item (q > 0) or with identity when acceptable, and a specific identity item wins over `*` (found and fixed).",
     "C14": " Added: the Upgrade token is compared case-insensitively; the extended length field carries payload.len() itself.",
     "C15": " Added: a delimiter candidate at the head waits for enough bytes; the head check covers the scan's look-ahead; the scan resumes at the next byte.",
-    "C16": " Added: the segment checks run on the decoded path and the checked PathBuf is what is returned; 412 takes precedence over 304.",
-    "C17": " Added: client codec per-exchange state (response `close` wins, HEAD flag and connection type recomputed per request, payload slot rewritten, no payload decoder for HEAD); chunked wins over Content-Length for responses; STREAM flag implies a payload decoder.",
-    "C19": " Added: constant-bound slices (also of `str`, also `a..len-c`) need a dominating length test; STREAM flag never set with an empty payload slot (unwrap on None).",
+    "C16": " Added: the segment checks run on the decoded path and the checked PathBuf is what is returned; 412 takes precedence over 304; a directory listing is produced only when enabled; the range size is the file length.",
+    "C17": " Added: client codec per-exchange state (response `close` wins, HEAD flag and connection type recomputed per request, payload slot rewritten, no payload decoder for HEAD); chunked wins over Content-Length for responses; STREAM flag implies a payload decoder; the keep-alive flag given to on_release is the codec's; a failed h2 exchange returns the connection to the pool only when the error is neither I/O nor GOAWAY.",
+    "C19": " Added: constant-bound slices (also of `str`, also `a..len-c`) need a dominating length test; STREAM flag never set with an empty payload slot (unwrap on None); quality floats accepted only across a true comparison (NaN refused); str truncation on a char boundary.",
 }
 
 NOT_YET = "check not built yet in this round (planned per DESIGN.md section 4); not claimed until it exists"
